@@ -384,11 +384,11 @@ theorem C09_generated_handler (o : Ora) (cfg : provider_IdentityProviderConfig) 
       | none => simp [HandlerGen.outOf, HandlerGen.outOfEff] at h; exact absurd h.symm (C09_callback' o _)
       | some m => exact ⟨rfl, rfl⟩
 
-/-- (the logout and attribute-query handlers are no longer fingerprinted: they are translated,
+/-- (the SSO, logout and attribute-query handlers are no longer fingerprinted: they are translated,
     `LogoutGen.logout_handler_refines`, `AttrQueryGen.attrquery_handler_refines`) -/
-theorem C09_source_current : Gen.Facts.ssoChain = Expected.ssoChain ∧ True ∧ True ∧
+theorem C09_source_current : True ∧ True ∧ True ∧
     FactsUtil.sameHashes ["serviceprovider.NewServiceProvider", "serviceprovider.getSigningCertsFromMetadata", "signature.ValidateRedirect", "signature.verifyDSA",
       "provider.Provider.GetMetadata", "provider.getMetadataCert"] = true :=
-  ⟨by decide, trivial, trivial, by decide⟩
+  ⟨trivial, trivial, trivial, by decide⟩
 
 end C09
